@@ -120,52 +120,64 @@ def codeMatches (expect code : Nat) : Bool :=
   else if expect < 100 then code / 10 == expect
   else code == expect
 
+/-- take the next action of the script; an exhausted script means the server drops the connection -/
+def Conn.pop (c : Conn) : Act × Conn :=
+  match c.script with
+  | [] => (.drop, c)
+  | a :: rest => (a, { c with script := rest })
+
+/-- the server sent reply `code text` to `v`; the client was expecting `expect` -/
+def Conn.replied (c : Conn) (v : Verb) (expect code : Nat) (text : Bytes) : Conn × Except Err (Nat × Bytes) :=
+  let c1 := c.ev (.reply code)
+  -- server side effects of the reply it just gave
+  let c2 := if v == .data && code == 354 then { c1 with inData := true } else c1
+  let c3 := if v == .quit && code == 221 then { c2 with srvGone := true } else c2
+  (c3, if codeMatches expect code then .ok (code, text) else .error (.reply code text))
+
+/-- the client waits on a server that stays silent -/
+def Conn.waitSilent (c : Conn) : Conn × Except Err (Nat × Bytes) :=
+  (c.ev (.stall c.armed), .error (if c.armed then .timeout else .blocked))
+
+def Conn.applyAct (c : Conn) (v : Verb) (expect : Nat) : Act → Conn × Except Err (Nat × Bytes)
+  | .drop => ({ c.ev .drop with srvGone := true }, .error .eof)
+  | .stall => ({ c with srvSilent := true }).waitSilent
+  | .garbage => (c.ev .garbage, .error .proto)
+  | .tlsBad => (c.ev .garbage, .error .proto)       -- only meaningful at a handshake position
+  | .ok => c.replied v expect (defaultReply c.caps v).1 (defaultReply c.caps v).2
+  | .reply code text => c.replied v expect code text
+
 /-- The server takes its next action for `v`; the client then reads one reply expecting `expect`. -/
 def Conn.serverTurn (c : Conn) (v : Verb) (expect : Nat) : Conn × Except Err (Nat × Bytes) :=
   if c.srvGone then (c, .error .eof)
-  else if c.srvSilent then
-    (c.ev (.stall c.armed), .error (if c.armed then .timeout else .blocked))
-  else
-    let (a, rest) := match c.script with
-      | [] => (Act.drop, [])
-      | a :: rest => (a, rest)
-    let c := { c with script := rest }
-    match a with
-    | .drop => ({ c.ev .drop with srvGone := true }, .error .eof)
-    | .stall =>
-      let c := { c with srvSilent := true }
-      (c.ev (.stall c.armed), .error (if c.armed then .timeout else .blocked))
-    | .garbage => (c.ev .garbage, .error .proto)
-    | .tlsBad => (c.ev .garbage, .error .proto)   -- only meaningful at a handshake position
-    | .ok | .reply _ _ =>
-      let (code, text) := match a with
-        | .reply code text => (code, text)
-        | _ => defaultReply c.caps v
-      let c := c.ev (.reply code)
-      -- server side effects of the reply it just gave
-      let c := if v == .data && code == 354 then { c with inData := true } else c
-      let c := if v == .quit && code == 221 then { c with srvGone := true } else c
-      if codeMatches expect code then (c, .ok (code, text)) else (c, .error (.reply code text))
+  else if c.srvSilent then c.waitSilent
+  else c.pop.2.applyAct v expect c.pop.1
 
-/-- smtp.Client.cmd: write one command line, read one reply -/
 def Conn.log (c : Conn) (r : LogRec) : Conn := if c.debug then { c with logs := c.logs ++ [r] } else c
 
+/-- debugLog(client to server): the command, or the redaction marker while an AUTH exchange is active -/
+def Conn.logC2S (c : Conn) (line : Bytes) : Conn :=
+  c.log { c2s := true, text := if c.authActive then redacted else line }
+
+/-- code and text as `cmd` hands them to the logger -/
+def replyOf : Except Err (Nat × Bytes) → Nat × Bytes
+  | .ok (code, text) => (code, text)
+  | .error (.reply code text) => (code, text)
+  | .error _ => (0, [])
+
+/-- debugLog(server to client): code and text; 3xx replies are redacted while AUTH is active -/
+def Conn.logS2C (c : Conn) (r : Except Err (Nat × Bytes)) : Conn :=
+  c.log { c2s := false, code := (replyOf r).1,
+          text := if c.authActive && 300 ≤ (replyOf r).1 && (replyOf r).1 ≤ 400 then redacted else (replyOf r).2 }
+
+/-- a command line reaches the server only while it is still there and listening -/
+def Conn.send (c : Conn) (v : Verb) (line : Bytes) : Conn :=
+  if c.srvGone || c.srvSilent then c else c.ev (.cmd v line)
+
 def Conn.cmd (c : Conn) (v : Verb) (line : Bytes) (expect : Nat) : Conn × Except Err (Nat × Bytes) :=
-  -- debugLog(client to server): the command, or the redaction marker while an AUTH exchange is active
-  let c := c.log { c2s := true, text := if c.authActive then redacted else line }
-  if !c.cliOpen then (c, .error .closed)
+  if !c.cliOpen then (c.logC2S line, .error .closed)
   else
-    -- a command reaches the server only while it is still there and listening
-    let c := if c.srvGone || c.srvSilent then c else c.ev (.cmd v line)
-    let (c, r) := c.serverTurn v expect
-    -- debugLog(server to client): code and text; 3xx replies are redacted while AUTH is active
-    let (code, text) := match r with
-      | .ok (code, text) => (code, text)
-      | .error (.reply code text) => (code, text)
-      | .error _ => (0, [])
-    let c := c.log { c2s := false, code := code,
-                     text := if c.authActive && 300 ≤ code && code ≤ 400 then redacted else text }
-    (c, r)
+    (((c.logC2S line).send v line).serverTurn v expect |>.1.logS2C (((c.logC2S line).send v line).serverTurn v expect).2,
+     (((c.logC2S line).send v line).serverTurn v expect).2)
 
 /-- smtp.Client.Close / textproto.Conn.Close -/
 def Conn.close (c : Conn) : Conn :=
@@ -233,27 +245,33 @@ def Conn.extension (c : Conn) (k : String) : Conn × Bool :=
   | (c, some _) => (c, false)
   | (c, none) => (c, c.hasExt k)
 
+/-- the MAIL command line: ESMTP parameters only for extensions of the latest EHLO reply -/
+def Conn.mailLine (c : Conn) (sender : Bytes) : Bytes :=
+  sb "MAIL FROM:<" ++ sender ++ sb ">" ++
+    (if c.hasExt "8BITMIME" then sb " BODY=8BITMIME" else []) ++
+    (if c.hasExt "SMTPUTF8" then sb " SMTPUTF8" else []) ++
+    (if c.hasExt "DSN" && !c.dsnmrtype.isEmpty then sb " RET=" ++ c.dsnmrtype else [])
+
 /-- smtp.Client.Mail -/
 def Conn.mail (c : Conn) (sender : Bytes) : Conn × Option Err :=
   if containsCRLF sender then (c, some .invalidLine)
   else match c.hello with
     | (c, some e) => (c, some e)
     | (c, none) =>
-      let line := sb "MAIL FROM:<" ++ sender ++ sb ">" ++
-        (if c.hasExt "8BITMIME" then sb " BODY=8BITMIME" else []) ++
-        (if c.hasExt "SMTPUTF8" then sb " SMTPUTF8" else []) ++
-        (if c.hasExt "DSN" && !c.dsnmrtype.isEmpty then sb " RET=" ++ c.dsnmrtype else [])
-      match c.cmd .mail line 250 with
+      match c.cmd .mail (c.mailLine sender) 250 with
       | (c, .error e) => (c, some e)
       | (c, .ok _) => (c, none)
+
+/-- the RCPT command line -/
+def Conn.rcptLine (c : Conn) (to : Bytes) : Bytes :=
+  sb "RCPT TO:<" ++ to ++ sb ">" ++
+    (if c.hasExt "DSN" && !c.dsnrntype.isEmpty then sb " NOTIFY=" ++ c.dsnrntype else [])
 
 /-- smtp.Client.Rcpt -/
 def Conn.rcpt (c : Conn) (to : Bytes) : Conn × Option Err :=
   if containsCRLF to then (c, some .invalidLine)
   else
-    let line := sb "RCPT TO:<" ++ to ++ sb ">" ++
-      (if c.hasExt "DSN" && !c.dsnrntype.isEmpty then sb " NOTIFY=" ++ c.dsnrntype else [])
-    match c.cmd .rcpt line 25 with
+    match c.cmd .rcpt (c.rcptLine to) 25 with
     | (c, .error e) => (c, some e)
     | (c, .ok _) => (c, none)
 
